@@ -10,7 +10,7 @@ for id in $ids; do
   timeout 2400 ./check $id --tier quick > /tmp/seed-$id-quick.log 2>&1; q=$?
   tq=$(( $(date +%s) - t0 ))
   th=-; tt=0
-  if [ $q -ne 1 ]; then
+  if [ $q -ne 1 ] && [ -z "$QUICK_ONLY" ]; then
     t1=$(date +%s)
     timeout 5400 ./check $id --tier thorough > /tmp/seed-$id-thorough.log 2>&1; th=$?
     tt=$(( $(date +%s) - t1 ))
